@@ -302,7 +302,9 @@ def containers_factory(quick, seed):
             # the container itself (a dense container contribution) together with uses of its elements
             "T(x, x[0])", "x + T(x[0] * x[1])", "T(x[1]) + x", "T(x, x)", "T(x[0] * x[1], x)", "T(x, x[0:2], x[2])",
             # array-valued outputs: the caller's cotangent ARRAY reaches several reads of the same leaf unchanged
-            "x[0] + x[0]", "x[0] + 3.0 * x[0]", "x[1] + x[0] + x[1]", "x[-1] + x[2]"]
+            "x[0] + x[0]", "x[0] + 3.0 * x[0]", "x[1] + x[0] + x[1]", "x[-1] + x[2]",
+            # three and four dense container contributions to one container value
+            "T(x, x, x)", "T(x + T(x[0]), T(x[1]) + x, x + T(x[2]))", "T(x, x + T(x[0] * x[1]), x, x)"]
 
     def h(ch):
         kind = ch.choose("container", ["tuple", "list"])
